@@ -114,7 +114,13 @@ class BoolCFGLM(LM):
             AssertionError: If context contains out-of-vocabulary tokens
         """
         assert set(context) <= self.V, f"OOVs detected: {set(context) - self.V}"
-        p = self.model.next_token_weights(self.model.chart(context)).trim()
+        if isinstance(self.model, LM):
+            # CKY back-end: the incremental parser lives inside the CKYLM wrapper
+            # and its outside pass also needs the prefix itself.
+            parser, context = self.model.model, tuple(context)
+            p = parser.next_token_weights(parser.chart(context), context).trim()
+        else:
+            p = self.model.next_token_weights(self.model.chart(context)).trim()
         return Float.chart({w: 1 for w in p})
 
     def __call__(self, context):
